@@ -38,14 +38,11 @@ state (never dropped, never moved out to the caller), the operation is
 `Running` or `Dropped` (never `Done`/`Complete`/`NotStarted`, the states in
 which the caller or `drop_state` may touch the resources), and the builder
 setters cannot reach the resources. -/
-theorem C01_inv (multi : Bool) (es : List Ev) (hv : validRun (init multi) es = true) :
-    let s := run (init multi) es
-    s.inflight = true →
-      s.op.boxLive = true ∧ s.op.resInit = true ∧ s.op.resDrops = 0 ∧
-      (isRunning s.op.status = true ∨ s.op.status = .dropped) ∧
-      s.op.builderAccess = false := by
-  intro s hin
-  have h := inv_run (init multi) es (inv_init multi) hv
+theorem C01_inv (s : OS) (hr : Reachable s) (hin : s.inflight = true) :
+    s.op.boxLive = true ∧ s.op.resInit = true ∧ s.op.resDrops = 0 ∧
+    (isRunning s.op.status = true ∨ s.op.status = .dropped) ∧
+    s.op.builderAccess = false := by
+  have h := reachable_inv hr
   obtain ⟨b1, b2, b3⟩ := h.i1 hin
   refine ⟨b1, b2, h.i8.2.1 b2, ?_, ?_⟩
   · rcases b3 with b3 | ⟨b3, _⟩
@@ -58,35 +55,30 @@ theorem C01_inv (multi : Bool) (es : List Ev) (hv : validRun (init multi) es = t
 /-- **No dereference after free.** `Completion::process` dereferences
 `user_data`: every completion still waiting in the completion queue belongs
 to an allocated operation state (and its resources are still in place). -/
-theorem C01_no_deref_after_free (multi : Bool) (es : List Ev)
-    (hv : validRun (init multi) es = true) :
-    let s := run (init multi) es
-    s.cq ≠ [] → s.op.boxLive = true ∧ s.op.resInit = true := by
-  intro s hc
-  have h := inv_run (init multi) es (inv_init multi) hv
+theorem C01_no_deref_after_free (s : OS) (hr : Reachable s) (hc : s.cq ≠ []) :
+    s.op.boxLive = true ∧ s.op.resInit = true := by
+  have h := reachable_inv hr
   exact ⟨(h.i2 hc).1, (h.i2 hc).2.1⟩
 
 /-- The state is only ever freed when the kernel holds nothing of the operation
 and no completion of it is pending; and it is freed at most once. -/
-theorem C01_freed_only_when_quiet (multi : Bool) (es : List Ev)
-    (hv : validRun (init multi) es = true) :
-    let s := run (init multi) es
-    s.op.boxLive = false → s.inflight = false ∧ s.cq = [] ∧ s.op.frees = 1 := by
-  intro s hb
-  have h := inv_run (init multi) es (inv_init multi) hv
+theorem C01_freed_only_when_quiet (s : OS) (hr : Reachable s) (hb : s.op.boxLive = false) :
+    s.inflight = false ∧ s.cq = [] ∧ s.op.frees = 1 := by
+  have h := reachable_inv hr
   have hna : ¬ active s.op := by
     intro ha; rcases ha with ha | ⟨_, ha⟩
     · cases hin : s.inflight with
-      | true => have := (h.i1 hin).1; simp [hb] at this
+      | true => have := (h.i1 hin).1; rw [hb] at this; exact Bool.noConfusion this
       | false =>
         rcases h.i3 (Or.inl ha) with h3 | h3
-        · simp [hin] at h3
-        · have := (h.i2 h3).1; simp [hb] at this
-    · simp [hb] at ha
+        · rw [hin] at h3; exact Bool.noConfusion h3
+        · have := (h.i2 h3).1; rw [hb] at this; exact Bool.noConfusion this
+    · rw [hb] at ha; exact Bool.noConfusion ha
   obtain ⟨q1, q2⟩ := quiet_of_not_active s h hna
   refine ⟨q1, q2, ?_⟩
-  have := h.i4
-  have hne : s.op.frees ≠ 0 := fun h0 => by simp [this.2.2 h0] at hb
+  have h4 := h.i4
+  have hne : s.op.frees ≠ 0 := fun h0 => by
+    have := h4.2.2 h0; rw [hb] at this; exact Bool.noConfusion this
   omega
 
 /-- **Builder setters are frozen once the operation started**
@@ -131,7 +123,8 @@ theorem C01_running_not_freed (o : Op) (c : Res) (hr : isRunning o.status = true
   cases o with
   | mk multi status waker boxLive resInit futLive frees resDrops =>
   cases status <;> simp [isRunning] at hr
-  cases hm : fMore c.flags <;> cases multi <;> cases waker <;> simp [Op.update, hm]
+  cases hm : fMore c.flags <;> cases multi <;> cases waker <;> simp [Op.update, hm] <;>
+    exact ⟨_, _, ⟨rfl, rfl⟩, rfl, rfl, by simp⟩
 
 /-- Dropping the future of a running operation frees nothing: the state is only
 marked `Dropped` (deferred reclamation). -/
